@@ -101,7 +101,8 @@ def run_resilient(cmd, lines):
 # ---- which sweep calls fall inside the domain (WF predicate) of some class theorem ------------------------------------------------
 # An approximation in Python of the hypotheses of the `front_cls_correct_*` theorems + their dispatch lemmas (Props/C01*.lean): encoding
 # class of the row, operand signature, the instruction has an entry in the chunk the theorem ranges over, mode, options, address form.
-VEX_SHAPE = {0x72: "rvm", 0x75: "rvm", 0x76: "rvm", 0x68: "rm", 0x6B: "rm", 0x7A: "rvmi", 0x7C: "rvmi", 0x6F: "rmi", 0x71: "rmi",
+VEX_SHAPE = {0x72: "rvm", 0x75: "rvm", 0x73: "rvm", 0x76: "rvm", 0x68: "rm", 0x6B: "rm", 0x7A: "rvmi", 0x7C: "rvmi", 0x7B: "rvmi", 0x7D: "rvmi",
+             0x6F: "rmi", 0x71: "rmi",
              0x62: "mr", 0x64: "mri", 0x65: "mri"}
 VEX_SIG = {"rvm": "RRX", "rm": "RX", "rvmi": "RRXI", "rmi": "RXI", "mr": "XR", "mri": "XRI"}
 GP = ("gpb", "gpbhi", "gpw", "gpd", "gpq")
